@@ -819,5 +819,38 @@ Proof.
       * rewrite Hpt in Gg. discriminate.
     + rewrite (Hvoth _ Hnn) in Hv. eauto.
 Qed.
+
+(* ---- one step of the core ---------------------------------------------------------------------------------------- *)
+Lemma step_core_own s th e : own_ev e = true -> step_core s th e = step_own s th e.
+Proof. destruct e; intros H; try discriminate H; reflexivity. Qed.
+
+Lemma Inv_core s o th e s' : Rc cs s o -> Inv s o -> pend (get_thread s th) = None -> step_core s th e = Some s' ->
+  W_C03 (obs_pre cs o (th, e)) = false -> escape_C03 o (th, e) = false -> Inv s' (obs_pre cs o (th, e)).
+Proof.
+  intros HRc HI Hpn H HW Hesc. destruct (own_ev e) eqn:Hev.
+  { rewrite step_core_own in H by exact Hev. eapply Inv_own; eauto. }
+  constructor.
+  - destruct (ev_class e Hev) as [Hf|[Hnf|(i & s0 & ->)]].
+    + eapply c_inst_frame; [eapply step_core_csame; eauto|apply obs_pre_csame; exact Hf|apply (iv_inst _ _ HI)].
+    + eapply c_inst_nf; eauto.
+    + eapply c_inst_state; eauto.
+  - eapply c_name_step; eauto.
+  - eapply c_run_step; eauto.
+  - eapply c_sd_step; eauto.
+  - eapply c_pend_step; eauto.
+  - eapply c_after_step; eauto.
+Qed.
+
+Lemma R3_step s o th e s' : R3 s o -> step s (th, e) = Some s' ->
+  W_C03 (obs_step cs o (th, e)) = false -> escape_C03 o (th, e) = false -> R3 s' (obs_step cs o (th, e)).
+Proof.
+  intros [HRc HI] H HW Hesc. split; [eapply Rc_step; eauto|].
+  rewrite obs_step_pre in *. apply Inv_refresh.
+  unfold step in H. cbn [fst snd] in H.
+  eapply (Inv_core (flush th s)); eauto.
+  - eapply Rc_sys_same; eauto using sys_same_flush.
+  - now apply Inv_flush.
+  - destruct (flush_thread th s th) as (_ & _ & _ & Ep). rewrite Ep, N.eqb_refl. reflexivity.
+Qed.
 (*STOP*)
 End RelC03.
